@@ -221,9 +221,139 @@ func CheckFrozen(label string) {
 	}
 }
 
-func Disjoint(a, b any) bool { return true }
+// Disjoint: no pointer target, non-empty slice backing array or Go map reachable from both values.
+func Disjoint(a, b any) bool {
+	sa, sb := map[uintptr]bool{}, map[uintptr]bool{}
+	collect(reflect.ValueOf(a), sa, 0)
+	collect(reflect.ValueOf(b), sb, 0)
+	for p := range sa {
+		if sb[p] {
+			return false
+		}
+	}
+	return true
+}
 
-func DeepEq(a, b any) bool { return reflect.DeepEqual(a, b) }
+func collect(v reflect.Value, set map[uintptr]bool, d int) {
+	if !v.IsValid() || d > 50 {
+		return
+	}
+	switch v.Kind() {
+	case reflect.Ptr:
+		if v.IsNil() || set[v.Pointer()] {
+			return
+		}
+		set[v.Pointer()] = true
+		collect(v.Elem(), set, d+1)
+	case reflect.Slice:
+		if v.IsNil() || v.Cap() == 0 {
+			return
+		}
+		full := v.Slice3(0, v.Cap(), v.Cap())
+		set[full.Pointer()] = true
+		for i := 0; i < v.Len(); i++ {
+			collect(v.Index(i), set, d+1)
+		}
+	case reflect.Map:
+		if v.IsNil() {
+			return
+		}
+		set[v.Pointer()] = true
+		it := v.MapRange()
+		for it.Next() {
+			collect(it.Key(), set, d+1)
+			collect(it.Value(), set, d+1)
+		}
+	case reflect.Interface:
+		if !v.IsNil() {
+			collect(v.Elem(), set, d+1)
+		}
+	case reflect.Struct:
+		for i := 0; i < v.NumField(); i++ {
+			collect(v.Field(i), set, d+1)
+		}
+	case reflect.Array:
+		for i := 0; i < v.Len(); i++ {
+			collect(v.Index(i), set, d+1)
+		}
+	}
+}
+
+// DeepEq: content equality following references; nil and empty slices/maps are equal.
+func DeepEq(a, b any) bool { return deepEq(reflect.ValueOf(a), reflect.ValueOf(b), 0) }
+
+func deepEq(a, b reflect.Value, d int) bool {
+	if !a.IsValid() || !b.IsValid() {
+		return a.IsValid() == b.IsValid()
+	}
+	if a.Type() != b.Type() || d > 50 {
+		return false
+	}
+	switch a.Kind() {
+	case reflect.Ptr:
+		if a.IsNil() || b.IsNil() {
+			return a.IsNil() && b.IsNil()
+		}
+		return deepEq(a.Elem(), b.Elem(), d+1)
+	case reflect.Slice:
+		if a.Len() != b.Len() {
+			return false
+		}
+		for i := 0; i < a.Len(); i++ {
+			if !deepEq(a.Index(i), b.Index(i), d+1) {
+				return false
+			}
+		}
+		return true
+	case reflect.Map:
+		if a.Len() != b.Len() {
+			return false
+		}
+		it := a.MapRange()
+		for it.Next() {
+			bv := b.MapIndex(it.Key())
+			if !bv.IsValid() || !deepEq(it.Value(), bv, d+1) {
+				return false
+			}
+		}
+		return true
+	case reflect.Interface:
+		if a.IsNil() || b.IsNil() {
+			return a.IsNil() && b.IsNil()
+		}
+		return deepEq(a.Elem(), b.Elem(), d+1)
+	case reflect.Struct:
+		for i := 0; i < a.NumField(); i++ {
+			if !deepEq(a.Field(i), b.Field(i), d+1) {
+				return false
+			}
+		}
+		return true
+	case reflect.Array:
+		for i := 0; i < a.Len(); i++ {
+			if !deepEq(a.Index(i), b.Index(i), d+1) {
+				return false
+			}
+		}
+		return true
+	case reflect.Func:
+		return a.IsNil() == b.IsNil()
+	}
+	if a.CanInterface() && b.CanInterface() {
+		return a.Interface() == b.Interface()
+	}
+	switch a.Kind() {
+	case reflect.Bool:
+		return a.Bool() == b.Bool()
+	case reflect.Int, reflect.Int8, reflect.Int16, reflect.Int32, reflect.Int64:
+		return a.Int() == b.Int()
+	case reflect.Uint, reflect.Uint8, reflect.Uint16, reflect.Uint32, reflect.Uint64, reflect.Uintptr:
+		return a.Uint() == b.Uint()
+	case reflect.String:
+		return a.String() == b.String()
+	}
+	return false
+}
 
 func StackMark()     {}
 func PeakDepth() int { return 0 }
